@@ -362,7 +362,7 @@ func runRobust(sc *streamScenario, rec *recorder, level int) {
 	rg := newRng(sc.Seed ^ 0x3030)
 	rec.ev(M{"ev": "reset", "t": sc.SID, "kind": "robust", "npkts": len(bs.pkts)})
 	var all []robustCfg
-	for _, ps := range []int{-1, 188, 192, 204, 189} {
+	for _, ps := range []int{-1, 188, 192, 204, 189, 257, 1024} {
 		for _, rd := range []string{"bytes", "bufio", "plain", "chunk", "bufio16", "bufio190"} {
 			for _, api := range []string{"packet", "data"} {
 				all = append(all, robustCfg{ps, rd, api})
